@@ -5,6 +5,11 @@ use std::fmt::Write as _;
 
 pub trait Project {
     fn project(&self) -> String;
+    /// Names the condition of a *known class* of non-round-tripping values, so that a
+    /// failure on such a value gets its own narrow key (and nothing else is masked by it).
+    fn diagnose(&self) -> Option<&'static str> {
+        None
+    }
 }
 
 /// order-independent fingerprint of a Debug value that contains HashMaps:
@@ -41,6 +46,10 @@ impl Project for cascette_formats::encoding::EncodingFile {
         }
         s
     }
+    fn diagnose(&self) -> Option<&'static str> {
+        let lossy = self.espec_table.entries.iter().any(|e| e.contains('\u{FFFD}')) || self.trailing_espec.as_ref().is_some_and(|t| t.contains('\u{FFFD}'));
+        if lossy { Some("non-utf8-espec-string-converted-lossily") } else { None }
+    }
 }
 
 impl Project for cascette_formats::archive::ArchiveIndex {
@@ -51,11 +60,41 @@ impl Project for cascette_formats::archive::ArchiveIndex {
             f.version, f.page_size_kb, f.offset_bytes, f.size_bytes, f.ekey_length, f.footer_hash_bytes, f.element_count, self.entries
         )
     }
+    fn diagnose(&self) -> Option<&'static str> {
+        if self.footer.ekey_length != 16 || self.footer.offset_bytes != 4 {
+            Some("key-or-offset-width-other-than-16/4-rebuilt-as-16/4")
+        } else {
+            None
+        }
+    }
 }
 
 impl Project for cascette_formats::root::RootFile {
     fn project(&self) -> String {
-        format!("{:?} {:?} {:?}", self.version, self.header, self.blocks)
+        // header total_files / named_files are counts derived from the blocks: not projected.
+        // Records of a block are a set (looked up by id / name hash): projected in sorted order.
+        let mut s = format!("{:?}", self.version);
+        for b in &self.blocks {
+            if b.records.is_empty() {
+                continue; // a block without records carries no entries
+            }
+            let mut recs: Vec<String> = b.records.iter().map(|r| format!("{r:?}")).collect();
+            recs.sort_unstable();
+            let _ = write!(s, " [cf={:#x} lf={:?} n={} {:?}]", b.header.content_flags, b.header.locale_flags, b.records.len(), recs);
+        }
+        s
+    }
+    fn diagnose(&self) -> Option<&'static str> {
+        use cascette_formats::root::RootVersion;
+        let total: usize = self.blocks.iter().map(|b| b.records.len()).sum();
+        let named: usize = self.blocks.iter().flat_map(|b| b.records.iter()).filter(|r| r.name_hash.is_some()).count();
+        if self.blocks.is_empty() || total == 0 {
+            Some("root-without-records-cannot-be-rebuilt")
+        } else if self.version == RootVersion::V2 && (16..100).contains(&total) && named < 10 {
+            Some("v2-classic-header-ambiguity-band(total 16..99, named<10)")
+        } else {
+            None
+        }
     }
 }
 
@@ -77,9 +116,15 @@ impl Project for cascette_formats::size::SizeManifest {
 
 impl Project for cascette_formats::tvfs::TvfsFile {
     fn project(&self) -> String {
+        // table offsets/sizes are layout, derived from the tables: not projected
+        let h = &self.header;
         format!(
-            "{:?} files={:?} vfs={:?} cont={:?} est={:?}",
-            self.header,
+            "v={} ek={} pk={} flags={:#x} depth={} files={:?} vfs={:?} cont={:?} est={:?}",
+            h.format_version,
+            h.ekey_size,
+            h.pkey_size,
+            h.flags,
+            h.max_depth,
             self.path_table.files,
             self.vfs_table.entries,
             self.container_table.entries,
@@ -90,12 +135,23 @@ impl Project for cascette_formats::tvfs::TvfsFile {
 
 impl Project for cascette_formats::patch_archive::PatchArchive {
     fn project(&self) -> String {
-        format!("{:?} {:?} {:?}", self.header, self.encoding_info, self.blocks)
+        // block_count and the grouping into blocks are layout; entries are content
+        let h = &self.header;
+        let entries: Vec<_> = self.blocks.iter().flat_map(|b| b.file_entries.iter()).collect();
+        format!(
+            "v={} fk={} ok={} pk={} bits={} flags={:#x} enc={:?} entries={:?}",
+            h.version, h.file_key_size, h.old_key_size, h.patch_key_size, h.block_size_bits, h.flags, self.encoding_info, entries
+        )
+    }
+    fn diagnose(&self) -> Option<&'static str> {
+        // build() recomputes the flags byte from the presence of encoding info (bit 0x02) only
+        if self.header.flags & !0x02 != 0 { Some("header-flag-bits-other-than-0x02-dropped-on-rebuild") } else { None }
     }
 }
 impl Project for cascette_formats::patch_index::PatchIndex {
     fn project(&self) -> String {
-        format!("{:?} k={} {:?}", self.header, self.key_size, self.entries)
+        // header_size / data_size / block descriptors are layout
+        format!("v={} k={} kd={:?} entries={:?}", self.header.version, self.key_size, self.header.key_data, self.entries)
     }
 }
 impl Project for cascette_formats::zbsdiff::ZbsDiff {
